@@ -314,6 +314,67 @@ func upg2Scenario(name, holdAt string, releaseAfter int, bFollows bool) Scenario
 	}}
 }
 
+// (3b) C08: a second candidate that arrives while the first candidate's upgrade packet is being handled - the handling goroutine held
+// right after it has released the "upgrading" flag (upgrade.switching), inside the old transport's DoClose (log:closing), inside the
+// "upgrade" listeners (L.upgrade). The late candidate must be closed without being probed; the session switches once.
+func upgSwitchWinScenario(name, kind, point string, bFollows bool) Scenario {
+	return Scenario{Name: name, Run: func(t *testing.T, rec *Rec, g *Gates) {
+		cfg := EngCfg{PI: 25 * time.Second, PT: 20 * time.Second, UT: 5 * time.Second, WT: true}
+		d := newDirect(t, rec, g, cfg, "polling")
+		if d.sid == "" {
+			d.w.Finish()
+			return
+		}
+		w, sc, c := d.w, d.sc, d.c
+		dial := func() *WSClient {
+			if kind == "webtransport" {
+				return w.DialWT(c.S, nil)
+			}
+			return w.DialWS(c.S, "", nil, nil)
+		}
+		a := dial()
+		sc.settle()
+		a.SendPkt(Pkt{Type: "ping", Data: []byte("probe")})
+		sc.settle()
+		// (the check interval releases a pending poll; none is pending here)
+		g.Park(point, true)
+		a.SendPkt(Pkt{Type: "upgrade"})
+		sc.settle()
+		g.Park(point, false)
+		held := g.Parked(point) > 0
+		b := dial()
+		sc.settle()
+		if bFollows && !b.closed {
+			b.SendPkt(Pkt{Type: "ping", Data: []byte("probe")})
+			sc.settle()
+		}
+		g.ReleaseAll()
+		sc.settle()
+		if so := w.Sock(d.sid); so != nil && so.Upgraded() {
+			c.Kind, c.ws = "websocket", a
+			a.OnPkt = func(wc *WSClient, p Pkt) { sc.processPkts(c, []Pkt{p}, wc) }
+		}
+		if bFollows && !b.closed {
+			b.SendPkt(Pkt{Type: "upgrade"})
+			sc.settle()
+		}
+		rec.Log("note", "held", held)
+		w.Expect(d.sid, "upgraded")
+		w.Expect(d.sid, "notupgrading")
+		// the session must still work on the transport it switched to
+		go w.Send(d.sid, SendOpt{Size: 5})
+		sc.settle()
+		if c.Kind == "websocket" && c.ws != nil && !c.ws.closed {
+			c.ws.SendPkt(w.ClientMsg(5, false, 0))
+			sc.settle()
+		}
+		w.Expect(d.sid, "open")
+		w.Expect(d.sid, "drained")
+		w.Expect(d.sid, "delivered")
+		d.finish()
+	}}
+}
+
 // (4) C08 / C12: an upgrade completing on a session in each state of a graceful close
 func upgCloseScenario(name string, closeAt int, discard bool, buffered int, pendingPoll bool) Scenario {
 	return Scenario{Name: name, Run: func(t *testing.T, rec *Rec, g *Gates) {
@@ -686,6 +747,13 @@ func openWinScenario(name, kind, point, fault string) Scenario {
 
 func directFamily() []Scenario {
 	var out []Scenario
+	for _, kind := range []string{"websocket", "webtransport"} {
+		for _, point := range []string{"upgrade.switching", "log:closing", "L.upgrade"} {
+			for _, follows := range []bool{false, true} {
+				out = append(out, upgSwitchWinScenario(fmt.Sprintf("upgswitch_%s_%s_f%v", kind, shortPoint(point), follows), kind, point, follows))
+			}
+		}
+	}
 	for _, kind := range []string{"websocket", "webtransport"} {
 		for _, point := range []string{openLogPoint, "S.flush", "S.drain", "handshake.constructed", "handshake.stored", "handshake.listening"} {
 			for _, fault := range []string{"drop", "closeframe"} {
